@@ -169,6 +169,38 @@ pub fn graph<'tcx>(tcx: TyCtxt<'tcx>) -> J {
                     env,
                     ty::EarlyBinder::bind(func.ty(body, tcx)),
                 );
+                // blanket impls in core call back into local code: `x.into()` runs `<U as From<T>>::from`,
+                // `x.try_into()` runs `<U as TryFrom<T>>::try_from`, `it.collect::<B>()` runs `<B as FromIterator<_>>::from_iter`
+                if let ty::FnDef(fd, fargs) = fty.kind() {
+                    let name = tcx.def_path_str(*fd);
+                    let back: Option<(&str, &str, Vec<ty::GenericArg<'tcx>>)> = match name.as_str() {
+                        "core::convert::Into::into" if fargs.len() == 2 => Some(("From", "from", vec![fargs[1], fargs[0]])),
+                        "core::convert::TryInto::try_into" if fargs.len() == 2 => Some(("TryFrom", "try_from", vec![fargs[1], fargs[0]])),
+                        _ => None,
+                    };
+                    if let Some((tr, meth, targs)) = back {
+                        let sym = rustc_span::Symbol::intern(tr);
+                        if let Some(trait_did) = tcx.get_diagnostic_item(sym) {
+                            let m = tcx
+                                .associated_items(trait_did)
+                                .in_definition_order()
+                                .find(|it| it.name().as_str() == meth)
+                                .map(|it| it.def_id);
+                            if let Some(mdid) = m {
+                                let a = tcx.mk_args(&targs);
+                                if let Ok(Some(ci)) = Instance::try_resolve(tcx, env, mdid, a) {
+                                    let i = add(ci, &mut ids, &mut order, &mut queue);
+                                    edges.push(J::Obj(vec![
+                                        ("bb", J::Num(bb.as_u32() as i128)),
+                                        ("to", J::Num(i as i128)),
+                                        ("kind", J::s("call")),
+                                        ("via", J::s(name.clone())),
+                                    ]));
+                                }
+                            }
+                        }
+                    }
+                }
                 match fty.kind() {
                     ty::FnDef(fd, fargs) => match Instance::try_resolve(tcx, env, *fd, fargs) {
                         Ok(Some(ci)) => {
